@@ -44,7 +44,7 @@ def _dep(name, path, extra=""):
 
 def deps_for(hb):
     tf = ""
-    if hb in ("std", "std-native", "std-layout1", "std-layout4", "std-features"):
+    if hb in ("std", "std-native", "std-features") or hb.startswith("std-layout"):
         chacha = blake = jh = ""
         if hb == "std-features":
             # the cargo features the default build leaves off and that change code: threefish's `no_unroll` (loops instead of
@@ -80,6 +80,10 @@ HOST_BUILDS = {
     # builds let nightly rustc randomise it (a layout assumption in unsafe code shows here and nowhere else)
     "std-layout1": "-Zrandomize-layout -Zlayout-seed=1",
     "std-layout4": "-Zrandomize-layout -Zlayout-seed=4",
+    # (which seeds actually reorder a given struct depends on the crate's metadata hash, i.e. also on the path of the tree
+    # being built: four seeds leave a three-field struct in declaration order with probability about 1/81)
+    "std-layout5": "-Zrandomize-layout -Zlayout-seed=5",
+    "std-layout6": "-Zrandomize-layout -Zlayout-seed=6",
     "portable": "--cfg hostbuild_fixed --cfg hostbuild_portable",
     "nostd-sse2": "--cfg hostbuild_fixed",
     "nostd-ssse3": "--cfg hostbuild_fixed -C target-feature=+ssse3",
@@ -449,7 +453,9 @@ prop(
         Leg("nostd-avx2", "release", "chacha_block", "C15", 100000, 1000000, max_ops=32),
         Leg("std-native", "release", "chacha_block", "C15", 100000, 1000000, max_ops=32),
         Leg("std-layout1", "release", "chacha_block", "C15", 100000, 1000000, max_ops=32),
-        Leg("std-layout4", "release", "chacha_block", "C15", 0, 1000000, max_ops=32),
+        Leg("std-layout4", "release", "chacha_block", "C15", 100000, 1000000, max_ops=32),
+        Leg("std-layout5", "release", "chacha_block", "C15", 100000, 1000000, max_ops=32),
+        Leg("std-layout6", "release", "chacha_block", "C15", 100000, 1000000, max_ops=32),
         Leg("nostd-sse2", "release", "chacha_block", "C15", 0, 1000000, max_ops=32),
         Leg("nostd-ssse3", "release", "chacha_block", "C15", 0, 1000000, max_ops=32),
         Leg("nostd-avx", "release", "chacha_block", "C15", 0, 1000000, max_ops=32),
@@ -941,7 +947,7 @@ def miri_native():
     return os.path.join(VERIF, "target", tag + "-native", "debug", "mirithreads")
 
 
-def miri_run(base, nw, table, seed_lo, seed_hi, rate, idx=None, seq=False, rounds=1, timeout=None, warmup=None, x86=False):
+def miri_run(base, nw, table, seed_lo, seed_hi, rate, idx=None, seq=False, rounds=1, timeout=None, warmup=None, x86=False, plan=None, exp=None):
     """run the thread workload under Miri for scheduler seeds [seed_lo, seed_hi); returns (rc, output).
     Each seed is a fresh interpreter (a cold process); the seed also selects which of the `nw` workloads runs."""
     bdir, mpath, tag = miri_x86_dirs() if x86 else miri_dirs()
@@ -960,6 +966,8 @@ def miri_run(base, nw, table, seed_lo, seed_hi, rate, idx=None, seq=False, round
         cmd.append(str(rounds))
         if warmup:
             cmd.append(str(warmup))
+        if plan is not None:
+            cmd += ["plan=" + plan, "exp=" + exp]
     try:
         p = subprocess.run(cmd, env=env, cwd=bdir, stdout=subprocess.PIPE, stderr=subprocess.STDOUT, text=True, timeout=timeout, start_new_session=True)
     except subprocess.TimeoutExpired as e:
@@ -1318,6 +1326,47 @@ def miri_cost_hint(w):
 
 
 
+def minimise_miri_plan(native, base, w, s_, rate, nr, wu, x86, what):
+    """Shrink the failing workload: fewer threads, fewer calls per thread - as long as the same interpreter seed and preemption
+    rate still end in the same kind of failure (the schedule of a smaller workload is another schedule of the same generator; a
+    candidate that no longer fails is simply not taken). Returns (plan string, expectations, calls before, calls after, runs used)."""
+    plan = subprocess.run([native, "planraw", str(base), str(NW), str(w)], stdout=subprocess.PIPE, text=True).stdout.strip()
+    threads = [t.split(",") for t in plan.split("|") if t]
+    before = sum(len(t) for t in threads)
+    used = 0
+
+    def fails(cand):
+        ps = "|".join(",".join(t) for t in cand)
+        ex = subprocess.run([native, "expectplan", str(base), str(NW), ps], stdout=subprocess.PIPE, text=True).stdout.strip()
+        rc, out = miri_run(base, NW, "", s_, s_ + 1, rate, w, rounds=nr, warmup=wu, x86=x86, plan=ps, exp=ex, timeout=1500)
+        return rc not in (0, 124) and classify_miri(out) == what, ps, ex
+
+    best = None
+    progress = True
+    while progress and used < 8:
+        progress = False
+        cands = []
+        if any(len(t) > 1 for t in threads):
+            cands.append([t[:1] for t in threads])                       # only the first call of every thread
+            cands.append([t[:max(1, len(t) // 2)] for t in threads])     # half of every thread's calls
+        if len(threads) > 2:
+            for k in range(len(threads)):
+                cands.append(threads[:k] + threads[k + 1:])               # one thread less
+        for cand in cands:
+            if used >= 8:
+                break
+            if sum(len(t) for t in cand) >= sum(len(t) for t in threads):
+                continue
+            used += 1
+            ok, ps, ex = fails(cand)
+            if ok:
+                threads, best, progress = cand, (ps, ex), True
+                break
+    if best is None:
+        return None
+    return best[0], best[1], before, sum(len(t) for t in threads), used
+
+
 def run_miri_layer(pid, tier, sd, replay_dir, results, violations, known, others):
     """S7b: threads from a cold process; every thread switch decided by Miri's seeded scheduler. One interpreter process
     per (workload, scheduler seed), 16 at a time."""
@@ -1379,8 +1428,18 @@ def run_miri_layer(pid, tier, sd, replay_dir, results, violations, known, others
         seen_sig.add(sig)
         tail = "\n".join(l for l in out1.splitlines() if l.strip())
         head = "\n".join(tail.splitlines()[:6])[:700]
+        mini = None
+        if pid in props and len(seen_sig) <= 2:
+            try:
+                mini = minimise_miri_plan(native, base, w, s_, rate, nr, wu, x86, classify_miri(out1))
+            except Exception as e:  # minimisation is a convenience: the unminimised workload still replays
+                log("[%s] miri: minimisation skipped (%s)" % (pid, e))
         f = dict(kind="miri", base_seed=base, workloads=NW, workload_index=w, explicit_index=True, miri_seed=s_, preemption_rate=rate, rounds=nr, warmup=wu, x86=x86, table=table,
-                 ops=[plans[w]] if 0 <= w < len(plans) else [], minimised_from=1,
+                 ops=(["thread %d: call kind %s" % (ti, c.split(":")[0]) for ti, t in enumerate(mini[0].split("|")) for c in t.split(",")] if mini
+                      else [c for c in (plans[w].split(": ", 1)[1].replace(" | ", " ").split(" ") if 0 <= w < len(plans) else [])]),
+                 workload=plans[w] if 0 <= w < len(plans) else "",
+                 minimised_from=(mini[2] if mini else len(plans[w].split(": ", 1)[1].replace(" | ", " ").split(" ")) if 0 <= w < len(plans) else 1),
+                 **(dict(plan=mini[0], plan_expectations=mini[1], minimised_from_calls=mini[2], minimised_to_calls=mini[3], minimisation_interpreter_runs=mini[4]) if mini else {}),
                  violation=dict(properties=props, invariant="T1", signature=sig, at_op=0,
                                 detail="Miri scheduler seed %d, preemption rate %s, workload %d (%s backend): %s%s\n%s\n...\n%s" % (
                                     s_, rate, w, "x86" if x86 else "portable", what, "" if needs_overlap is None else " (the same threads one after the other: %s)" % ("pass" if needs_overlap else "fail too"), head, tail[-900:])))
@@ -1829,7 +1888,7 @@ def replay(pid, path):
         return 0
     if j.get("kind") == "miri":
         rc, out = miri_run(j["base_seed"], j["workloads"], j["table"], j["miri_seed"], j["miri_seed"] + 1, j["preemption_rate"],
-                           j["workload_index"] if j.get("explicit_index") else None, rounds=j.get("rounds", 1), warmup=j.get("warmup"), x86=j.get("x86", False))
+                           j["workload_index"] if j.get("explicit_index") else None, rounds=j.get("rounds", 1), warmup=j.get("warmup"), x86=j.get("x86", False), plan=j.get("plan"), exp=j.get("plan_expectations"))
         if rc != 0:
             sig = j["violation"]["signature"]
             if pid not in j["violation"]["properties"]:
